@@ -26,7 +26,7 @@ from mir_models import Models, SeqIt, as_items, as_str, deref, err, none, ok, so
 DOC_KINDS = ["ok", "skipped", "timeout-total", "timeout-index", "hard-error"]
 # early aborts of one document's turn, before its executor is called: a prepend document that does not parse, a work directory that cannot be
 # set up, no executor for the shell
-EARLY = ("prepend-unparsable", "setup-error", "no-executor")
+EARLY = ("prepend-unparsable", "setup-error", "no-executor", "unparsable")      # unparsable: the given document itself does not parse
 
 
 class RunModels(Models):
@@ -74,6 +74,8 @@ class RunModels(Models):
         def find_and_parse(c, m, a):
             what = "".join(chr(ch.v) for ch in as_str(a[1]).chars)
             if what == "test":
+                if any(d.kind == "unparsable" for d in c.notes.get("docs") or []):
+                    return err(Opaque("anyhow:other"))           # one of the given documents does not parse: nothing is run
                 return ok(VecBuf(list(c.notes["documents"])))
             out = []
             for p in as_items(a[2]):
@@ -376,7 +378,7 @@ def post(ctx, args, kind, value):
     for doc in docs:
         if doc.kind in EARLY:
             # scrut could not do its job for this document: the run ends here with an error that is not a validation failure
-            return is_err("anyhow:other") and len(received) == doc.d
+            return is_err("anyhow:other") and len(received) == (0 if any(d.kind == "unparsable" for d in docs) else doc.d)
         if doc.d >= len(received):
             return False                                  # a document was not executed
         pre, main, app = titles_of(doc, cli_pre, cli_app)
@@ -547,6 +549,8 @@ def native_replay(cli_pre, cli_app, docs, received, verdicts, flags=None):
                     fm.append("append: [app.md]")
                 if doc.kind == "timeout-total":
                     fm.append("total_timeout: 2s")
+                if doc.kind == "unparsable":
+                    fm.append("no_such_key: [")
                 if doc.kind == "hard-error":
                     # a shell that exists but cannot be started: the executor itself reports the failure (ExecutionError::FailedExecution)
                     with open(os.path.join(tmp, "notashell"), "w") as fh:
